@@ -34,7 +34,9 @@ RULE = ('unit: format_date/luis_date on all 73,049 dates 1900..2099 + out-of-ran
         'layout, every English layout on every day of 2000 and 2019 and on every month end / leap day of every year, other '
         'cultures every layout on every day of 2000 and on month ends of every 7th year (the full product 73,049 x 15 layouts '
         'does not fit 20 min at the measured 110-450 date queries/s); non-trivial = distinct query that produced the date')
-ASSUMPTIONS = ['group values are inputs of the model, the regex engine and the extractors are not modelled (pipeline level only)',
+ASSUMPTIONS = ['English: text -> groups is modelled and proved (Props/C06Front: parse_basic_regex_match on the regenerated date regexes, '
+               'every contract layout x every date 1900-2099; regex engine = backtracking matcher validated against `regex` by lib/datefrontcorr); '
+               'other cultures: group values are inputs of the model; the date EXTRACTOR is not modelled (pipeline level only)',
                'get_year_from_text (written-out years) enters the model as a parameter',
                'ChineseDateParser.match_to_date is modelled (unit correspondence on ~6k real matches); its 汉字-year conversion '
                '(convert_chinese_year_to_number, which runs the number recogniser) is an input of the model',
